@@ -58,6 +58,75 @@ def run_check(prop, tier, seed):
     return 0
 
 
+def replay(rec):
+    """re-execute the case stored in a replay file against the current working tree and re-apply the oracles;
+    exit 1 if a violation with the recorded key shows again, 0 if not, 2 if the payload cannot be re-executed"""
+    from vlib import model, pipeline
+    from vlib.findings import Violation
+    prop, key, payload = rec['property'], rec['key'], rec.get('payload') or {}
+    print('replaying %s  key=%s' % (prop, key))
+    print('recorded: %s' % rec.get('what', '')[:500])
+    mod = importlib.import_module('checks.' + prop.lower())
+    if hasattr(mod, 'replay'):
+        return mod.replay(rec)
+    case = payload.get('case')
+    vs = []
+    if isinstance(case, dict) and 'preamble' in case and 'ops' in case:
+        env = None
+        results, crashes, wd = pipeline.run_histories([case], 'replay')
+        try:
+            vs += pipeline.crash_violations(prop, crashes, [case])
+            r = results.get(0)
+            if r is not None:
+                for e in r['log']:
+                    print('  ', {k: v for k, v in e.items() if k in ('i', 'op', 'ret', 'exc', 'what', 'items', 'qr', 'aec', 'mm', 'blocks', 'active', 'fill')})
+                exp, exp_out, m = model.expected_outputs(case)
+                outs = pipeline.collect_outputs(case, r)
+                vs += pipeline.log_exceptions(prop, case, r)
+                v2, docs = pipeline.judge_wellformed(prop, case, outs, exp_out)
+                vs += v2
+                files = [(case['id'] + '__' + o.id, o.data) for o in outs if o.data]
+                dumps, rcr = pipeline.read_back(files, 'replay', wd)
+                dumps = {k.replace('__', '/'): v for k, v in dumps.items()}
+                vs += pipeline.judge_roundtrip(prop, case, outs, exp_out, docs, dumps)
+                vs += pipeline.judge_bytecounts(prop, case, r, outs)
+                vs += pipeline.judge_flush(prop, case, r, exp, exp_out, docs)
+                vs += pipeline.judge_hints(prop, case, outs, docs, exp_out)
+                vs += pipeline.judge_tables(prop, case, outs, docs)
+                vs += pipeline.judge_times(prop, case, outs, docs)
+                vs += pipeline.judge_rotation(prop, case, r, outs, exp_out, docs)
+        finally:
+            runner.cleanup(wd)
+    elif isinstance(case, dict) and 'ops' in case and ('segs' in case or 'path' in case or case.get('stream') == 'unopened'):
+        results, crashes, wd = runner.run_cases('asan', 'dec', [case], 'replay', pre_args_fn=lambda w: [w])
+        runner.cleanup(wd)
+        for c in crashes:
+            vs.append(Violation(prop, '%s:%s' % (prop, c.key_tail()), c.excerpt[:800]))
+        if 0 in results:
+            print('  decoder results:', json.dumps(results[0]['res'])[:1500])
+            if 'expected' in payload:
+                print('  expected       :', json.dumps(payload['expected'])[:1500])
+                if results[0]['res'] != payload['expected']:
+                    vs.append(Violation(prop, key, 'decoder results differ from the expected ones'))
+    elif 'input_hex' in payload and payload['input_hex']:
+        job = {'id': 'replay', 'hex': payload['input_hex'], 'stream': 'sstream', 'dump': 'none', 'render': True, 'tables': True}
+        results, crashes, wd = runner.run_cases('asan', 'read', [job], 'replay')
+        runner.cleanup(wd)
+        for c in crashes:
+            vs.append(Violation(prop, '%s:%s' % (prop, c.key_tail()), c.excerpt[:800]))
+        if 0 in results:
+            print('  reader result:', {k: results[0].get(k) for k in ('hdr', 'end', 'nblocks', 'alloc_max', 'hook_ok')})
+    else:
+        print(json.dumps(payload, indent=1)[:3000])
+        print('this replay file documents the violation; re-run the check with the same VERIF_SEED to re-execute it')
+        return 2
+    same = [v for v in vs if v.key == key]
+    for v in vs:
+        print('  now: %s | %s' % (v.key, v.what[:300]))
+    print('REPRODUCED' if same else ('other violations only' if vs else 'not reproduced on the current tree'))
+    return 1 if same else 0
+
+
 def main(argv):
     if len(argv) < 2:
         print(__doc__)
@@ -77,13 +146,7 @@ def main(argv):
     if cmd == 'baseline':
         return subprocess.call([os.path.join(HERE, 'tools', 'baseline.sh'), build.repo()])
     if cmd == 'replay':
-        payload = json.load(open(argv[2]))
-        mod = importlib.import_module('checks.' + payload['property'].lower())
-        if hasattr(mod, 'replay'):
-            return mod.replay(payload)
-        print(json.dumps(payload, indent=1)[:4000])
-        print('no replay function for', payload['property'])
-        return 2
+        return replay(json.load(open(argv[2])))
     prop = cmd.upper()
     tier = os.environ.get('VERIF_TIER', 'quick')
     if '--tier' in argv:
